@@ -2597,8 +2597,14 @@ func ruleFirstElem(r *Run) {
 			// objects the function built itself are the library's own shapes
 			fresh := true
 			for rt := range deepRoots(p, ld.X) {
-				switch rt.(type) {
+				switch x := rt.(type) {
 				case *ssa.Alloc, *ssa.MakeSlice, *ssa.Const, *ssa.MakeMap:
+				case *ssa.Call:
+					// built by a constructor helper of the library (newTextCell(props, text)): the same
+					// library-made shape as a literal written in place
+					if !builtByConstructor(p, reader, x, o, 0) {
+						fresh = false
+					}
 				default:
 					fresh = false
 				}
@@ -2621,4 +2627,52 @@ func ruleFirstElem(r *Run) {
 	}
 	r.Count("constant_index_sites_on_received_objects", n)
 	r.Count("constant_index_sites_on_fresh_objects", nFresh)
+}
+
+// builtByConstructor: the call's result is an object the callee builds itself on every return —
+// literals, make, constants — and whatever it takes over from its parameters cannot contain the
+// struct type whose slice is indexed (so the indexed slice is always one the constructor wrote).
+func builtByConstructor(p *Program, reader *readerModel, c *ssa.Call, owner *types.Named, depth int) bool {
+	cal := staticCallee(c)
+	if cal == nil || depth > 2 || !p.inModule(cal) || len(cal.Blocks) == 0 || reader.IsReader[cal] {
+		return false
+	}
+	rets := returnsOf(cal)
+	if len(rets) == 0 {
+		return false
+	}
+	for _, ret := range rets {
+		for i := range ret.Results {
+			rv := retResult(ret, i)
+			if !isPointerLike(rv.Type()) {
+				if _, isStruct := rv.Type().Underlying().(*types.Struct); !isStruct {
+					continue
+				}
+			}
+			for rt := range deepRoots(p, rv) {
+				switch x := rt.(type) {
+				case *ssa.Alloc, *ssa.MakeSlice, *ssa.Const, *ssa.MakeMap:
+				case *ssa.Parameter:
+					if n := isModStruct(p, x.Type()); n != nil && structsBelow(p, n)[owner] {
+						return false
+					}
+					if _, isIface := x.Type().Underlying().(*types.Interface); isIface {
+						return false
+					}
+					if sl, ok := x.Type().Underlying().(*types.Slice); ok {
+						if n := isModStruct(p, sl.Elem()); n != nil && structsBelow(p, n)[owner] {
+							return false
+						}
+					}
+				case *ssa.Call:
+					if !builtByConstructor(p, reader, x, owner, depth+1) {
+						return false
+					}
+				default:
+					return false
+				}
+			}
+		}
+	}
+	return true
 }
